@@ -91,7 +91,7 @@ def obligations(tier):
            enc, harness='C03_eflr', func='eflr_template_q', timeout=280, parts=8, classify=_classify),
         Ob('eflr_objects', 'ch', 'template (V | CRUV) x (none | RV); 1..2 objects; each component omitted/ABSATR/ATTRIB with characteristic sets {none,V,RV,CRUV} x {none,V,CRUV}',
            enc, harness='C03_eflr', func='eflr_objects_q', timeout=280, parts=16, classify=_classify),
-        Ob('eflr_table', 'ch', 'template attribute 0: all 16 characteristic combinations x 2 rep codes, attribute 1: {none,RV,CU,CRUV}; 0..2 objects; component 0 omitted/ABSATR/ATTRIB with all 16 combinations x 2 rep codes, component 1 with {none,V,RV,CRUV}',
+        Ob('eflr_table', 'ch', 'template attribute 0: 8 of the 16 characteristic combinations x 2 rep codes, attribute 1: {none,RV,CU,CRUV}; 0..2 objects; component 0 omitted/ABSATR/ATTRIB with 8 combinations x 2 rep codes, component 1 with {none,V,RV,CRUV}',
            enc, harness='C03_eflr', func='eflr_table', timeout=1500, parts=108, tiers=('thorough',), classify=_classify),
         Ob('logical_file_splitting', 'ch', 'a first logical file (FILE-HEADER [encrypted record] ORIGIN) followed by every sequence of 0..4 tokens from {new logical file, new logical file '
            'with an encrypted record before its ORIGIN, PARAMETER table, encrypted record, a further ORIGIN record, a WELL-REFERENCE record}; one visible record per logical record or all in one',
